@@ -51,8 +51,6 @@ package verifier
 //@ func (*LogStore).triggerVerify
 //@   props C18
 //@   requires s.metrics != nil
-//@   assigns g_trig
-//@   ghostinit g_trig_in = g_trig
 //@   ensures[C18.never-blocks] !effect("blocking")
 //@   ghostset g_trig = g_trig + 1
 //@   ensures[C18.one-report-or-drop] (traced("select:send:0") && nevent("call:metrics.Collector.IncrementCounter") == 0) || (traced("select:default") && nevent("call:metrics.Collector.IncrementCounter") == 1)
